@@ -16,6 +16,7 @@ import (
 	"github.com/gmrtd/gmrtd/pace"
 	"github.com/gmrtd/gmrtd/verifier"
 
+	"verifharness/chipsim"
 	"verifharness/der"
 	"verifharness/ecref"
 	"verifharness/fw"
@@ -433,6 +434,9 @@ func c12ExplicitHuge(r *mrand.Rand, cv *ecref.Curve, key *issuer.Key, octets int
 func (w *c12World) runVariant(k *fw.K, v c12Variant) {
 	d := v.d
 	n := d.size()
+	if strings.Contains(v.label, "crafted-recovered-message") {
+		k.Count("evidence_variants_crafted_recovered_message")
+	}
 	show := func() string {
 		blob := d.exCbor()
 		return fmt.Sprintf("variant=%s; verifiable-document CBOR (%d octets): %s", v.label, len(blob), c12Hex(blob))
@@ -554,6 +558,59 @@ func c12EvidenceCases(c *fw.Ctx, w *c12World) {
 					label += ":" + c12RandomChange(k.RNG, d, mech)
 				}
 				w.runVariant(k, c12Variant{label: label, mech: mech, d: d})
+				if w.caseCPU > c12CaseCPUBudget {
+					k.Count("bundles_cut_short_by_cpu_budget")
+					break
+				}
+			}
+		})
+	})
+}
+
+// craftedVariants: RSA responses that open to a crafted recovered message. The holder of the
+// DG15 key chooses what the verifier recovers (S = F^d mod N) - nothing, one octet, header
+// only, header + trailer and nothing else, trailers announcing a digest that is not there,
+// digest lengths around the hash length (shapes shared with C07, c07_crafted.go). They are
+// registered after every other case of the check, so that the indices (and with them the
+// per-case PRNG streams) of all earlier cases stay what they were.
+func (w *c12World) craftedVariants() []c12Variant {
+	var out []c12Variant
+	r := w.c.PlanRNG("c12/evidence-crafted")
+	base := w.sessionWith("AA")
+	rsaOID := asn1.ObjectIdentifier{1, 2, 840, 113549, 1, 1, 1}
+	for _, bits := range []int{1024, 1031} {
+		key := issuer.RSAKeyOf(bits, 0)
+		kb := (key.RSA.N.BitLen() + 7) / 8
+		fs := c07ShortFs(false)
+		for h := chipsim.AASHA1; h <= chipsim.AASHA512; h++ {
+			fs = append(fs, c07DigestLengthFs(r, h, base.aa.Nonce, true)...)
+		}
+		if bits != 1024 {
+			fs = fs[:40] // the degenerate ones again under a modulus whose bit length is not a multiple of 8
+		}
+		for _, f := range fs {
+			d := base.clone()
+			d.files["dg15"] = der.T(0x6F, key.SPKI())
+			d.aa.Algorithm = rsaOID
+			d.aa.Signature = c07SignF(key.RSA, f.f).FillBytes(make([]byte, kb))
+			out = append(out, c12Variant{label: fmt.Sprintf("rsa-%d-crafted-recovered-message:%s:F=%x", bits, c07FClass(f.name), f.f), mech: "AA", d: d})
+		}
+	}
+	return out
+}
+
+func c12CraftedEvidenceCases(c *fw.Ctx, w *c12World) {
+	vs := w.craftedVariants()
+	const bundle = 8
+	n := (len(vs) + bundle - 1) / bundle
+	c.Cases(n, func(i int) string {
+		return fmt.Sprintf("entry=activeauth.VerifyEvidence|family=evidence-crafted-recovered-message|first=%s|i=%d", vs[i*bundle].label, i)
+	}, func(i int, k *fw.K) {
+		w.evidenceBaseline()
+		w.withLogging(k, func() {
+			k.Nontrivial(fmt.Sprintf("evidence-crafted|%d", i))
+			for _, v := range vs[i*bundle : min(len(vs), (i+1)*bundle)] {
+				w.runVariant(k, v)
 				if w.caseCPU > c12CaseCPUBudget {
 					k.Count("bundles_cut_short_by_cpu_budget")
 					break
